@@ -3,7 +3,7 @@
 # suite passes with it) in a scratch worktree, then run the property's check against it in /repo and always revert.
 set -u
 prop=$1; sid=$2; tier=${3:-quick}
-src=/tmp/wt-$prop/DEMO; dst=/verif/seeded/$sid
+src=${SRC:-/tmp/wt-$prop/DEMO}; dst=/verif/seeded/$sid
 export GOFLAGS=-mod=mod GOPROXY=off GOSUMDB=off GOTOOLCHAIN=local
 mkdir -p $dst
 if [ -d $src ]; then cp $src/patch.diff $src/demo_test.go $dst/ 2>/dev/null; cp $src/README.md $dst/agent_README.md 2>/dev/null; fi
